@@ -505,6 +505,7 @@ def execute_queries(
     sql_fragments: List[str] = [sql for _, sql, _ in queries]
     if _contains_time_components(input_datasets):
         sql_fragments.append("vtl_period_normalize")
+        sql_fragments.append("vtl_period_in_calendar")
     if _contains_time_components(output_datasets):
         repr_macro = {
             "vtl": "vtl_period_to_vtl",
